@@ -161,6 +161,7 @@ type vLine struct {
 	Dust   map[string]int64 `json:"dust,omitempty"`
 	Thaw   uint32           `json:"thaw"`
 	NoDLP  int              `json:"nodlp"`
+	Poor   int64            `json:"poor"` // Reset line: the non-opener's funding share in msat (0 = even split)
 	File   string           `json:"file,omitempty"`
 }
 
@@ -501,6 +502,9 @@ func TestVerifChannelExec(t *testing.T) {
 		if !ok {
 			t.Fatalf("unknown channel type %q", tname)
 		}
+		// uneven funding split: the Cfg record carries the non-opener's share (msat)
+		poor := int64(evs[0].X)
+		VerifSetPoorShare(poor / 1000)
 		alice, bob, err := CreateTestChannels(t, ctype)
 		if err != nil {
 			t.Fatal(err)
@@ -530,7 +534,7 @@ func TestVerifChannelExec(t *testing.T) {
 		ntouch := 0
 		npre := 0
 
-		out.Emit(vLine{vEv: vEv{A: "Reset", P: "A"}, Type: tname, Opener: opener, File: filepath.Base(f),
+		out.Emit(vLine{vEv: vEv{A: "Reset", P: "A"}, Type: tname, Opener: opener, File: filepath.Base(f), Poor: poor,
 			Thaw: thaw, NoDLP: map[bool]int{false: 0, true: 1}[noDLP],
 			Dust: map[string]int64{
 				opener:    int64(alice.channelState.LocalChanCfg.DustLimit),
